@@ -818,13 +818,18 @@ Proof.
 Qed.
 
 (* what holds after a subtree has been read *)
-Definition SubPost (ord : list nat) (pr : nat -> nat) (st : rstate) (c : nat) (log' : list (nat * nat)) (st' : rstate) : Prop :=
-  exists new pr', RI (ord ++ c :: new) pr' log' st' /\ r_stack st' = r_stack st /\ r_pend st' = None /\
+(* the atoms below c in the order in which the writer visits them *)
+Definition kids (l : list dbond) : list nat := map b_dst (filter (fun e => negb (b_ring e)) l).
+Fixpoint emits (fuel : nat) (c : nat) : list nat :=
+  match fuel with O => [] | S f => flat_map (fun k => k :: emits f k) (kids (row m c)) end.
+
+Definition SubPost (ord : list nat) (pr : nat -> nat) (st : rstate) (c : nat) (log' : list (nat * nat)) (st' : rstate) (new : list nat) : Prop :=
+  exists pr', RI (ord ++ c :: new) pr' log' st' /\ r_stack st' = r_stack st /\ r_pend st' = None /\
     (forall w, In w ord -> pr' w = match par c with Some (p, _) => if Nat.eqb w p then S (pr w) else pr w | None => pr w end) /\
     (forall w, In w (c :: new) -> pr' w = length (row m w)) /\ Forall (fun w => par w <> None) new.
 
-Definition GoPost (ord : list nat) (pr : nat -> nat) (st : rstate) (x : nat) (log' : list (nat * nat)) (st' : rstate) : Prop :=
-  exists new pr', RI (ord ++ new) pr' log' st' /\ r_stack st' = r_stack st /\ r_pend st' = None /\
+Definition GoPost (ord : list nat) (pr : nat -> nat) (st : rstate) (x : nat) (log' : list (nat * nat)) (st' : rstate) (new : list nat) : Prop :=
+  exists pr', RI (ord ++ new) pr' log' st' /\ r_stack st' = r_stack st /\ r_pend st' = None /\
     pr' x = length (row m x) /\ (forall w, In w ord -> w <> x -> pr' w = pr w) /\
     (forall w, In w new -> pr' w = length (row m w)) /\ Forall (fun w => par w <> None) new.
 
@@ -834,7 +839,7 @@ Theorem atoks_sim : forall fuel c log ts log', atoks fuel m c log = Ok (ts, log'
   | Some (p, e) => In p ord /\ nth_error (row m p) (pr p) = Some e /\ r_prev st = Some (pos ord p) /\ r_pend st = pend_of e
   | None => r_prev st = None /\ r_pend st = None
   end ->
-  exists st', steps st ts = Some st' /\ SubPost ord pr st c log' st'.
+  exists st', steps st ts = Some st' /\ SubPost ord pr st c log' st' (emits fuel c).
 Proof.
   induction fuel as [|f IH]; intros c log ts log' E ord pr st HRI Hc Hvia; [discriminate|].
   cbn [atoks] in E.
@@ -847,9 +852,9 @@ Proof.
     assert (G : forall l x lg ts0 lg', GA l lg = Ok (ts0, lg') ->
               forall ord0 pr0 st0, RI ord0 pr0 lg st0 -> In x ord0 -> skipn (pr0 x) (row m x) = l ->
                 r_prev st0 = Some (pos ord0 x) -> r_pend st0 = None ->
-                exists st', steps st0 ts0 = Some st' /\ GoPost ord0 pr0 st0 x lg' st') end.
+                exists st', steps st0 ts0 = Some st' /\ GoPost ord0 pr0 st0 x lg' st' (flat_map (fun k => k :: emits f k) (kids l))) end.
   { induction l as [|e rest IHl]; intros x lg ts0 lg' Eg ord0 pr0 st0 HR Hx Hsk Hprev Hpend.
-    - inversion Eg; subst. exists st0. split; [reflexivity|]. exists [], pr0. rewrite app_nil_r.
+    - inversion Eg; subst. exists st0. split; [reflexivity|]. cbn [kids filter map flat_map]. exists pr0. rewrite app_nil_r.
       split; [exact HR|]. split; [reflexivity|]. split; [exact Hpend|]. split; [|split; [auto|split; [intros w []|constructor]]].
       apply skipn_nil_len in Hsk. pose proof (em_le _ _ (ri_em _ _ _ _ HR) x). lia.
     - destruct (skipn_nth _ _ _ _ Hsk) as [Ee Hsk'].
@@ -857,6 +862,8 @@ Proof.
       destruct (Hb x e Hein) as (Hdn & Hoe & Hfw).
       destruct (b_ring e) eqn:Hre.
       + (* a ring entry *)
+        assert (Hk : kids (e :: rest) = kids rest) by (unfold kids; cbn [filter]; rewrite Hre; reflexivity). rewrite Hk.
+        set (new := flat_map (fun k => k :: emits f k) (kids rest)).
         rewrite (t_src _ HT x e Hein) in Eg.
         destruct (ring_label_spec lg x (b_dst e)) as [Lin Lnew].
         pose proof (closed_iff_logged ord0 pr0 lg st0 x e HR Ee Hre) as Hcl.
@@ -868,9 +875,9 @@ Proof.
           destruct (step_ring_close ord0 pr0 lg (set_pend st0 (pend_of e)) x e i (RI_set_pend _ _ _ _ _ HR) Hx Ee Hre Ecl Ei Hprev eq_refl)
             as (st1 & Es1 & HR1 & P1 & S1 & Q1).
           cbn [N.of_nat] in Es1. rewrite Es1.
-          destruct (IHl x lg out lg' Er ord0 (upf pr0 x (S (pr0 x))) st1 HR1 Hx) as (st' & Es' & new & pr' & HR' & S' & Q' & F1 & F2 & F3 & F4).
+          destruct (IHl x lg out lg' Er ord0 (upf pr0 x (S (pr0 x))) st1 HR1 Hx) as (st' & Es' & pr' & HR' & S' & Q' & F1 & F2 & F3 & F4).
           { rewrite upf_same. first [exact Hsk'|reflexivity]. } { rewrite P1. exact Hprev. } { exact Q1. }
-          exists st'. split; [exact Es'|]. exists new, pr'. split; [exact HR'|]. split; [rewrite S', S1; reflexivity|]. split; [exact Q'|].
+          exists st'. split; [exact Es'|]. exists pr'. split; [exact HR'|]. split; [rewrite S', S1; reflexivity|]. split; [exact Q'|].
           split; [exact F1|]. split; [|split; [exact F3|exact F4]]. intros w Hw Hwx. rewrite (F2 w Hw Hwx). now apply upf_other.
         * assert (Hnk : ~ In (key_of x (b_dst e)) lg) by (intro X; apply Hcl in X; discriminate).
           rewrite (Lnew Hnk) in Eg.
@@ -880,9 +887,9 @@ Proof.
           destruct (step_ring_open ord0 pr0 lg (set_pend st0 (pend_of e)) x e (RI_set_pend _ _ _ _ _ HR) Hx Ee Hre Ecl Hnk Hprev eq_refl)
             as (st1 & Es1 & HR1 & P1 & S1 & Q1).
           cbn [N.of_nat] in Es1. rewrite Es1.
-          destruct (IHl x _ out lg' Er ord0 (upf pr0 x (S (pr0 x))) st1 HR1 Hx) as (st' & Es' & new & pr' & HR' & S' & Q' & F1 & F2 & F3 & F4).
+          destruct (IHl x _ out lg' Er ord0 (upf pr0 x (S (pr0 x))) st1 HR1 Hx) as (st' & Es' & pr' & HR' & S' & Q' & F1 & F2 & F3 & F4).
           { rewrite upf_same. first [exact Hsk'|reflexivity]. } { rewrite P1. exact Hprev. } { exact Q1. }
-          exists st'. split; [exact Es'|]. exists new, pr'. split; [exact HR'|]. split; [rewrite S', S1; reflexivity|]. split; [exact Q'|].
+          exists st'. split; [exact Es'|]. exists pr'. split; [exact HR'|]. split; [rewrite S', S1; reflexivity|]. split; [exact Q'|].
           split; [exact F1|]. split; [|split; [exact F3|exact F4]]. intros w Hw Hwx. rewrite (F2 w Hw Hwx). now apply upf_other.
       + (* a tree entry: the subtree of the child *)
         set (d := b_dst e) in *.
@@ -896,9 +903,11 @@ Proof.
         * (* last entry: no parentheses *)
           inversion Er; subst out lg3. inversion Eg; subst; clear Eg.
           rewrite (steps_btoks st0 e _ (pos ord0 x) Hpend Hprev Hoe). rewrite app_nil_r.
-          destruct (IH d lg sub lg' Es ord0 pr0 (set_pend st0 (pend_of e)) (RI_set_pend _ _ _ _ _ HR) Hd) as (st' & Es' & new & pr' & HR' & S' & Q' & F' & C' & P').
+          assert (Hk : flat_map (fun k => k :: emits f k) (kids [e]) = d :: emits f d) by (unfold kids; cbn [filter]; rewrite Hre; cbn [negb map flat_map]; now rewrite app_nil_r). rewrite Hk.
+          set (new := emits f d).
+          destruct (IH d lg sub lg' Es ord0 pr0 (set_pend st0 (pend_of e)) (RI_set_pend _ _ _ _ _ HR) Hd) as (st' & Es' & pr' & HR' & S' & Q' & F' & C' & P').
           { rewrite Hpard. auto. }
-          exists st'. split; [exact Es'|]. exists (d :: new), pr'. split; [exact HR'|]. split; [exact S'|]. split; [exact Q'|].
+          exists st'. split; [exact Es'|]. exists pr'. split; [exact HR'|]. split; [exact S'|]. split; [exact Q'|].
           rewrite Hpard in F'. split; [|split; [|split; [exact C'|constructor; [congruence|exact P']]]].
           -- rewrite (F' x Hx), Nat.eqb_refl. apply skipn_nil_len in Hsk'. assert (pr0 x < length (row m x))%nat by (apply nth_error_Some; congruence). lia.
           -- intros w Hw Hwx. rewrite (F' w Hw). destruct (Nat.eqb_spec w x); [contradiction|reflexivity].
@@ -908,18 +917,20 @@ Proof.
           set (st1 := {| r_atoms := r_atoms st0; r_nbrs := r_nbrs st0; r_prev := Some (pos ord0 x); r_stack := Some (pos ord0 x) :: r_stack st0; r_pend := None; r_open := r_open st0 |}).
           assert (HR1 : RI ord0 pr0 lg st1) by (destruct HR; constructor; assumption).
           rewrite (steps_btoks st1 e _ (pos ord0 x) eq_refl eq_refl Hoe), steps_app.
-          destruct (IH d lg sub lg2 Es ord0 pr0 (set_pend st1 (pend_of e)) (RI_set_pend _ _ _ _ _ HR1) Hd) as (st2 & Es2 & new & pr2 & HR2 & S2 & Q2 & F2 & C2 & P2).
+          set (new := emits f d). set (new' := flat_map (fun k => k :: emits f k) (kids (e2 :: rest2))).
+          destruct (IH d lg sub lg2 Es ord0 pr0 (set_pend st1 (pend_of e)) (RI_set_pend _ _ _ _ _ HR1) Hd) as (st2 & Es2 & pr2 & HR2 & S2 & Q2 & F2 & C2 & P2).
           { rewrite Hpard. auto. }
           rewrite Es2. cbn [steps step]. rewrite Q2, S2. cbn [set_pend r_stack st1].
           set (st3 := {| r_atoms := r_atoms st2; r_nbrs := r_nbrs st2; r_prev := Some (pos ord0 x); r_stack := r_stack st0; r_pend := None; r_open := r_open st2 |}).
           assert (HR3 : RI (ord0 ++ d :: new) pr2 lg2 st3) by (destruct HR2; constructor; assumption).
           rewrite Hpard in F2.
           assert (Hx3 : In x (ord0 ++ d :: new)) by (apply in_app_iff; now left).
-          destruct (IHl x lg2 out lg' Er (ord0 ++ d :: new) pr2 st3 HR3 Hx3) as (st' & Es' & new' & pr' & HR' & S' & Q' & F1 & F2' & F3' & F4').
+          destruct (IHl x lg2 out lg' Er (ord0 ++ d :: new) pr2 st3 HR3 Hx3) as (st' & Es' & pr' & HR' & S' & Q' & F1 & F2' & F3' & F4').
           { rewrite (F2 x Hx), Nat.eqb_refl. exact Hsk'. }
           { cbn [st3 r_prev]. f_equal. symmetry. now apply pos_app_in. }
           { reflexivity. }
-          exists st'. split; [exact Es'|]. exists ((d :: new) ++ new'), pr'. rewrite app_assoc. split; [exact HR'|].
+          assert (Hk : flat_map (fun k => k :: emits f k) (kids (e :: e2 :: rest2)) = (d :: new) ++ new') by (unfold new', kids; cbn [filter]; rewrite Hre; cbn [negb map flat_map]; reflexivity). rewrite Hk.
+          exists st'. split; [exact Es'|]. exists pr'. rewrite app_assoc. split; [exact HR'|].
           split; [rewrite S'; reflexivity|]. split; [exact Q'|]. split; [exact F1|]. split; [|split].
           -- intros w Hw Hwx. rewrite (F2' w ltac:(apply in_app_iff; now left) Hwx). rewrite (F2 w Hw). destruct (Nat.eqb_spec w x); [contradiction|reflexivity].
           -- intros w Hw. apply in_app_iff in Hw as [Hw|Hw]; [|now apply F3'].
@@ -937,11 +948,12 @@ Proof.
     rewrite Es1.
     assert (Hcin : In (b_dst e) (ord ++ [b_dst e])) by (apply in_app_iff; right; now left).
     assert (Hcp : b_dst e <> p) by (destruct (Hb p e Hein) as (_ & _ & F); specialize (F Hre); lia).
-    destruct (G (row m (b_dst e)) (b_dst e) log out log' Eg (ord ++ [b_dst e]) (upf pr p (S (pr p))) st1 HR1 Hcin) as (st' & Es' & new & pr' & HR' & S' & Q' & F1 & F2 & F3 & F4).
+    cbn [emits]. set (new := flat_map (fun k => k :: emits f k) (kids (row m (b_dst e)))).
+    destruct (G (row m (b_dst e)) (b_dst e) log out log' Eg (ord ++ [b_dst e]) (upf pr p (S (pr p))) st1 HR1 Hcin) as (st' & Es' & pr' & HR' & S' & Q' & F1 & F2 & F3 & F4).
     { rewrite (upf_other _ _ _ _ Hcp). rewrite (em_zero _ _ (ri_em _ _ _ _ HRI) _ Hc). reflexivity. }
     { rewrite P1. f_equal. symmetry. now apply pos_app_new. }
     { exact Q1. }
-    exists st'. split; [exact Es'|]. exists new, pr'. rewrite <- app_assoc in HR'. cbn [app] in HR'.
+    exists st'. split; [exact Es'|]. exists pr'. rewrite <- app_assoc in HR'. cbn [app] in HR'.
     split; [exact HR'|]. split; [rewrite S', S1; reflexivity|]. split; [exact Q'|]. split; [|split; [|exact F4]].
     + intros w Hw. assert (Hwc : w <> b_dst e) by (intro; subst; contradiction).
       rewrite (F2 w ltac:(apply in_app_iff; now left) Hwc). rewrite Epar. unfold upf. destruct (Nat.eqb_spec w p); subst; reflexivity.
@@ -951,11 +963,12 @@ Proof.
     destruct (step_root ord pr log st c HRI Epar Hc Hcn Hprev Hpend) as (st1 & Es1 & HR1 & P1 & S1 & Q1).
     rewrite Es1.
     assert (Hcin : In c (ord ++ [c])) by (apply in_app_iff; right; now left).
-    destruct (G (row m c) c log out log' Eg (ord ++ [c]) pr st1 HR1 Hcin) as (st' & Es' & new & pr' & HR' & S' & Q' & F1 & F2 & F3 & F4).
+    cbn [emits]. set (new := flat_map (fun k => k :: emits f k) (kids (row m c))).
+    destruct (G (row m c) c log out log' Eg (ord ++ [c]) pr st1 HR1 Hcin) as (st' & Es' & pr' & HR' & S' & Q' & F1 & F2 & F3 & F4).
     { rewrite (em_zero _ _ (ri_em _ _ _ _ HRI) _ Hc). reflexivity. }
     { rewrite P1. f_equal. symmetry. now apply pos_app_new. }
     { exact Q1. }
-    exists st'. split; [exact Es'|]. exists new, pr'. rewrite <- app_assoc in HR'. cbn [app] in HR'.
+    exists st'. split; [exact Es'|]. exists pr'. rewrite <- app_assoc in HR'. cbn [app] in HR'.
     split; [exact HR'|]. split; [rewrite S', S1; reflexivity|]. split; [exact Q'|]. split; [|split; [|exact F4]].
     + intros w Hw. assert (Hwc : w <> c) by (intro; subst; contradiction).
       rewrite Epar. exact (F2 w ltac:(apply in_app_iff; now left) Hwc).
@@ -984,17 +997,19 @@ Theorem rtoks_sim : forall rs log ts logf, rtoks m rs log = Ok (ts, logf) ->
   (forall r, In r rs -> par r = None /\ ~ In r ord) -> NoDup rs ->
   (forall w, In w ord -> pr w = length (row m w)) ->
   exists st' ord' pr', steps st ts = Some st' /\ RI ord' pr' logf st' /\ r_pend st' = None /\ r_stack st' = [] /\
-    (forall w, In w ord' -> pr' w = length (row m w)) /\ (forall r, In r rs -> In r ord') /\ (forall w, In w ord -> In w ord').
+    (forall w, In w ord' -> pr' w = length (row m w)) /\ (forall r, In r rs -> In r ord') /\ (forall w, In w ord -> In w ord') /\
+    ord' = ord ++ flat_map (fun r => r :: emits (S (length (atoms m))) r) rs.
 Proof.
   induction rs as [|r rest IH]; intros log ts logf E ord pr st HRI Hprev Hpend Hstk Hrs Hnd' Hfull.
   - cbn in E. inversion E; subst. exists st, ord, pr. split; [reflexivity|]. split; [exact HRI|]. split; [exact Hpend|]. split; [exact Hstk|].
-    split; [exact Hfull|]. split; [intros r []|auto].
+    split; [exact Hfull|]. split; [intros r []|]. split; [auto|cbn [flat_map]; now rewrite app_nil_r].
   - cbn [rtoks] in E.
     destruct (atoks (S (length (atoms m))) m r log) as [[ts1 log2]|] eqn:Ea; cbn [bind] in E; [|discriminate].
     destruct (rtoks m rest log2) as [[ts2 log3]|] eqn:Er; cbn [bind] in E; [|discriminate].
     inversion E; subst; clear E.
     destruct (Hrs r (or_introl eq_refl)) as [Hpr Hr].
-    destruct (atoks_sim _ r log ts1 log2 Ea ord pr st HRI Hr) as (st1 & Es1 & new & pr1 & HR1 & S1 & Q1 & F1 & C1 & P1).
+    set (new := emits (S (length (atoms m))) r).
+    destruct (atoks_sim _ r log ts1 log2 Ea ord pr st HRI Hr) as (st1 & Es1 & pr1 & HR1 & S1 & Q1 & F1 & C1 & P1).
     { rewrite Hpr. auto. }
     rewrite Hpr in F1. inversion Hnd' as [|? ? Hrr Hnd'']; subst.
     assert (Hfull1 : forall w, In w (ord ++ r :: new) -> pr1 w = length (row m w)).
@@ -1003,11 +1018,11 @@ Proof.
     + cbn in Er. inversion Er; subst. exists st1, (ord ++ r :: new), pr1. split; [exact Es1|]. split; [exact HR1|]. split; [exact Q1|].
       split; [rewrite S1; exact Hstk|]. split; [exact Hfull1|]. split.
       * intros r0 [<-|[]]. apply in_app_iff. right. now left.
-      * intros w Hw. apply in_app_iff. now left.
+      * split; [intros w Hw; apply in_app_iff; now left|]. cbn [flat_map]. now rewrite app_nil_r.
     + rewrite steps_app, Es1. cbn [steps step]. rewrite Q1, S1, Hstk.
       set (st2 := {| r_atoms := r_atoms st1; r_nbrs := r_nbrs st1; r_prev := None; r_stack := []; r_pend := None; r_open := r_open st1 |}).
       assert (HR2 : RI (ord ++ r :: new) pr1 log2 st2) by (destruct HR1; constructor; assumption).
-      destruct (IH log2 ts2 logf Er (ord ++ r :: new) pr1 st2 HR2 eq_refl eq_refl eq_refl) as (st' & ord' & pr' & Es' & HR' & Q' & S' & Fu' & Rt' & In').
+      destruct (IH log2 ts2 logf Er (ord ++ r :: new) pr1 st2 HR2 eq_refl eq_refl eq_refl) as (st' & ord' & pr' & Es' & HR' & Q' & S' & Fu' & Rt' & In' & Eo').
       * intros r' Hr'. destruct (Hrs r' (or_intror Hr')) as [Hp' Hn']. split; [exact Hp'|].
         intro Hin. apply in_app_iff in Hin as [Hin|[<-|Hin]]; [contradiction|contradiction|].
         rewrite Forall_forall in P1. exact (P1 r' Hin Hp').
@@ -1015,7 +1030,7 @@ Proof.
       * exact Hfull1.
       * exists st', ord', pr'. split; [exact Es'|]. split; [exact HR'|]. split; [exact Q'|]. split; [exact S'|]. split; [exact Fu'|]. split.
         -- intros r0 [<-|Hr0]; [apply In'; apply in_app_iff; right; now left|now apply Rt'].
-        -- intros w Hw. apply In'. apply in_app_iff. now left.
+        -- split; [intros w Hw; apply In'; apply in_app_iff; now left|]. rewrite Eo', <- app_assoc. reflexivity.
 Qed.
 
 (* every atom is eventually written: roots by the loop above, the others through their parents *)
@@ -1047,15 +1062,17 @@ Proof.
   intros x Hx. apply H. now right.
 Qed.
 
-Theorem read_graph ts logf : rtoks m (roots m) [] = Ok (ts, logf) ->
+Definition eord : list nat := flat_map (fun r => r :: emits (S (length (atoms m))) r) (roots m).
+
+Theorem read_graph_ord ts logf : rtoks m (roots m) [] = Ok (ts, logf) ->
   exists st' ord, steps init_state ts = Some st' /\ r_pend st' = None /\ r_stack st' = [] /\ r_open st' = [] /\
     r_atoms st' = map aat ord /\ all_some_rows (r_nbrs st') = Some (map (frow ord) ord) /\
     NoDup ord /\ (forall j, In j ord <-> (j < natoms m)%nat) /\ (length logf <= length logf)%nat /\
-    (forall key, In key logf -> exists x e, In e (row m x) /\ b_ring e = true /\ key = key_of x (b_dst e)) /\ NoDup logf.
+    (forall key, In key logf -> exists x e, In e (row m x) /\ b_ring e = true /\ key = key_of x (b_dst e)) /\ NoDup logf /\ ord = eord.
 Proof.
   intro E.
   destruct (rtoks_sim (roots m) [] ts logf E [] (fun _ => 0%nat) init_state RI_init eq_refl eq_refl eq_refl)
-    as (st' & ord & pr & Es & HR & Q & S & Full & Rts & _).
+    as (st' & ord & pr & Es & HR & Q & S & Full & Rts & _ & Eord).
   { intros r Hr. split; [now apply root_par_none|intros []]. }
   { exact (t_nodup _ HT). }
   { intros w []. }
@@ -1083,6 +1100,16 @@ Proof.
       now rewrite X.
     + split; [exact (em_nodup _ _ Hem)|]. split; [intro j; split; [apply Hin|apply Hall]|]. split; [lia|]. split.
       * intros key Hk. apply (lg_in _ _ (ri_lg _ _ _ _ HR)) in Hk as (x & k & e & E1 & E2 & _ & E4). exists x, e. split; [eapply nth_error_In; exact E1|auto].
-      * exact (lg_nodup _ _ (ri_lg _ _ _ _ HR)).
+      * split; [exact (lg_nodup _ _ (ri_lg _ _ _ _ HR))|exact Eord].
+Qed.
+
+Theorem read_graph ts logf : rtoks m (roots m) [] = Ok (ts, logf) ->
+  exists st' ord, steps init_state ts = Some st' /\ r_pend st' = None /\ r_stack st' = [] /\ r_open st' = [] /\
+    r_atoms st' = map aat ord /\ all_some_rows (r_nbrs st') = Some (map (frow ord) ord) /\
+    NoDup ord /\ (forall j, In j ord <-> (j < natoms m)%nat) /\ (length logf <= length logf)%nat /\
+    (forall key, In key logf -> exists x e, In e (row m x) /\ b_ring e = true /\ key = key_of x (b_dst e)) /\ NoDup logf.
+Proof.
+  intro E. destruct (read_graph_ord ts logf E) as (st' & ord & A1 & A2 & A3 & A4 & A5 & A6 & A7 & A8 & A9 & A10 & A11 & _).
+  exists st', ord. repeat (split; [assumption|]). assumption.
 Qed.
 End Sim.
